@@ -2,16 +2,16 @@
 from harness import pseudo
 
 ID = "C03"
-MODULES = ["HeraProofs.Props.C03"]
+MODULES = ["HeraProofs.Props.C03", "HeraProofs.Props.C03b"]
 GENERATED_DEPS = ["Ops.lean", "Exec.lean", "Tables.lean"]
 EXPLANATION = ("Theorems: C03_convert_* (the regenerated convert methods produce exactly these instruction lists, for all operands), "
-               "C03_SET / MOVE / CMP / NEG / FLAGS / CON / COFF / CBON / CCBOFF / HALT / NOP / BRlabel (the expansion executed on the "
+               "C03_SET / MOVE / CMP / NEG / NOT / FLAGS / SETRF / CON / COFF / CBON / CCBOFF / HALT / NOP / BRlabel / CALLlabel (the expansion executed on the "
                "BitVec architecture has exactly the documented whole-operation effect Spec.pseudo, for all operands, flags and register "
                "contents); each instruction of an expansion is tied to the implementation by C01_step. Oracle: every pseudo-operation "
                "through the real parser, label substitution, convert and execute from chosen pre-states against Spec.pseudo.")
-ASSUMPTIONS = ["NOT, SETRF and CALL(label): the expansion is proved (C03_convert_*), the whole-operation effect is decided by the oracle "
-               "against Spec.pseudo (theorem not yet written)",
-               "NOT with Ra = Rt is documented as unsupported (the checker warns); CALL(R13, label) has aliased operands (left open)"]
+ASSUMPTIONS = ["NOT with Ra = Rt is documented as unsupported (the checker warns) and CALL(R13, label) has aliased operands (left open by "
+               "the architecture): C03_NOT / C03_CALLlabel exclude exactly these operands; the oracle still runs them",
+               "the list of instructions each theorem executes is tied to the regenerated convert by C03_convert_*"]
 
 
 def run(ctx):
